@@ -930,6 +930,15 @@ class CodeGen:
             bubble += arg_bubble
 
         label = self.label_for_func(ConcreteSignature(name, tuple(concrete_params)))
+        if label == asm.LabelRef('write_int'):
+            # write_int builds its digits downwards from the end of its
+            # argument slot.  The longest output has more digits than a
+            # word has bytes, so the caller must account for the excess
+            # in its stack overflow check.  (log10(2) < 0.30103)
+            digits = (8 * self.word_size - 1) * 30103 // 100000 + 1
+            self.checkpoints.update(
+                self.stack.static_size + max(0, digits - self.word_size)
+            )
         yield asm.Add(self.fp, asm.State(self.fp), asm.IntLiteral(-offset))
         yield from self.goto(label)
         yield asm.Label(end_call)
